@@ -105,7 +105,7 @@ namespace
     Counter ff_injected("fault_fired", "enomem_injected"), ff_capacity("fault_fired", "enomem_capacity"), ff_clobber("fault_fired", "memptr_clobbered_on_failure"),
         ff_overflow("fault_fired", "overflow_request"), ff_zero_null("fault_fired", "zero_size_returned_null"), ff_zero_unique("fault_fired", "zero_size_returned_unique"),
         ff_vecfail("fault_fired", "enomem_inside_vector_op"), ff_reuse("fault_fired", "address_reused_immediately"),
-        ff_multi("fault_fired", "enomem_more_than_once_in_one_op"), ff_nh("fault_fired", "new_handler_invoked");
+        ff_multi("info", "enomem_more_than_once_in_one_op(only_if_the_allocator_retries)"), ff_nh("info", "new_handler_invoked(only_if_the_allocator_consults_it)");
     Counter cl_alloc_ok("clause", "allocate_returned(aligned,in_live_block,no_overlap)"), cl_alloc_throw("clause", "allocate_threw(bad_alloc,nothing_leaked)"),
         cl_overflow("clause", "unrepresentable_size_must_throw"), cl_dealloc("clause", "deallocate(exactly_one_block_died)"), cl_verify("clause", "verify_pattern_intact"),
         cl_conserve("clause", "conservation_after_op"), cl_end("clause", "end_of_history(no_live_block,no_bad_free)"), cl_eq("clause", "operator==_iff_alignments_equal"),
